@@ -125,11 +125,13 @@ def grep_forbidden(modules):
     return hits
 
 
-def audit_axioms(prop, module, theorems):
+def audit_axioms(prop, module, theorems, extra_modules=()):
     """#print axioms for every property theorem; returns {theorem: [axioms] or None if missing}"""
     path = os.path.join(BUILD, "audit_%s.lean" % prop)
     with open(path, "w") as f:
         f.write("import %s\n" % module)
+        for m in extra_modules:
+            f.write("import %s\n" % m)
         for t in theorems:
             f.write("#print axioms %s\n" % t)
     r = sh(["lake", "env", "lean", path], cwd=LEAN, timeout=1200)
@@ -276,7 +278,7 @@ def check(prop, tier, seed):
         if err:
             broken.append({"kind": "translator", "name": "tools/extract", "detail": err[-1500:]})
         module = cfg["module"]
-        ok, out = lake_build([module, "driver"])
+        ok, out = lake_build([module, "driver"] + cfg.get("module_extra", []))
         lean_ok = ok
         if not ok:
             mods = failing_modules(out)
@@ -286,11 +288,11 @@ def check(prop, tier, seed):
             ok2, out2 = lake_build(["driver"])
             if not ok2:
                 broken.append({"kind": "lean-build", "name": "driver", "detail": "\n".join(first_errors(out2))})
-        theorems = cfg["theorems"]
+        theorems = cfg.get("theorems", [])
         obligations += len(theorems)
         ax = {}
         if lean_ok:
-            ax, _raw = audit_axioms(prop, module, theorems)
+            ax, _raw = audit_axioms(prop, module, theorems, cfg.get("module_extra", []))
             for t in theorems:
                 a = ax.get(t)
                 if a is None:
@@ -414,7 +416,7 @@ def check(prop, tier, seed):
             "hand-written Lean model tied to /repo by the correspondence channels listed under 'channels' (differential testing, not proof)",
             "Go harness /verif/harness and Lean driver /verif/lean/Driver.lean (compiled by the Lean compiler)",
         ],
-        "theorems": {t: ax.get(t) for t in cfg["theorems"]},
+        "theorems": {t: ax.get(t) for t in cfg.get("theorems", [])},
         "channels": [{k: v for k, v in c.items() if k != "diffs"} for c in channels],
         "broken_obligations": [{k2: b.get(k2) for k2 in ("kind", "name", "detail")} for b in broken],
         "notes": notes,
@@ -426,7 +428,7 @@ def check(prop, tier, seed):
         cov["samples"] = pred.get("samples", [])[:8]
         cov["input_distribution"] = pred.get("hist", {})
     else:
-        cov["samples"] = [c["diffs"][0] for c in channels if c.get("diffs")][:3] or [{"theorem": t} for t in cfg["theorems"][:3]]
+        cov["samples"] = [c["diffs"][0] for c in channels if c.get("diffs")][:3] or [{"theorem": t} for t in cfg.get("theorems", [])[:3]]
     ev = {
         "property_id": prop,
         "tier": tier,
